@@ -349,6 +349,28 @@ def mesh_vertex_dirs(spec):
     return out
 
 
+def mesh_face_normal_dirs(spec, rng, n=4):
+    """world directions normal to faces of a mesh (up to rounding): all vertices of the face have the same projection,
+    which is where GJK's search direction ends up in front of a face; unnormalised and normalised variants"""
+    b = spec["base"] if spec["kind"] == "margin" else spec
+    if b["kind"] != "mesh":
+        return []
+    V = np.asarray(b["V"], float); R = np.asarray(b["T"], float)[:3, :3]
+    tri = triangles_for(np.ascontiguousarray(V), "outward")
+    out = []
+    for t in tri[rng.permutation(len(tri))[:n]]:
+        nrm = np.cross(V[t[1]] - V[t[0]], V[t[2]] - V[t[0]])
+        if not np.any(nrm):
+            continue
+        d = R @ nrm
+        if rng.random() < 0.5:
+            d = d / np.linalg.norm(d)
+        if rng.random() < 0.3:
+            d = d * float(rng.choice([1e-3, 50.0, 1e3]))
+        out.append(np.ascontiguousarray(d))
+    return out
+
+
 def rand_dirs(rng, n, frames=()):
     """hostile direction set: random, +-world axes, +-frame axes, sums and
     differences of two frame axes, exact zeros, wide norm range."""
